@@ -6,6 +6,13 @@ package harness
 // ValidateUpdateScopeOwners / ValidateWriteSession / ValidateWriteRecord /
 // ValidateDeleteRecord paths) on a real app with the REAL authz keeper and account keeper.
 //
+// A good share of the endpoint cases (`via=msg`, and every `mowners` op) goes END TO END through
+// the real metadata MsgServer (WriteScope, DeleteScope, Add/DeleteScopeDataAccess,
+// Add/DeleteScopeOwner, WriteSession, WriteRecord, DeleteRecord) on STORED scopes, sessions and
+// records: the message server's own look-ups, copies and list edits (AddOwners / RemoveOwners /
+// AddDataAccess / RemoveDataAccess) are then part of what is compared, and after an accepted
+// message the stored entry is read back.
+//
 // Address names (fixed convention shared with lean/PvModel/SignersDriver.lean):
 // A B C D ordinary accounts (sequence 7), W V smart-contract accounts (base account,
 // sequence 0, no pubkey: what isWasmAccount detects), N valid address without account,
@@ -29,6 +36,7 @@ import (
 	"github.com/cosmos/cosmos-sdk/x/authz"
 
 	"github.com/provenance-io/provenance/app"
+	metadatakeeper "github.com/provenance-io/provenance/x/metadata/keeper"
 	"github.com/provenance-io/provenance/x/metadata/types"
 )
 
@@ -347,8 +355,25 @@ func (e *signersEnv) class(err error) string {
 	if err == nil {
 		return "ok"
 	}
-	m := err.Error()
+	// the message server wraps the keeper's error: "<text>: invalid request"
+	m := strings.TrimSuffix(err.Error(), ": invalid request")
 	switch {
+	// message-server level rejections (before any signature is looked at)
+	case strings.Contains(m, "at least one signer is required"), strings.HasPrefix(m, "invalid owners: "),
+		strings.Contains(m, "at least one owner address is required"), strings.Contains(m, "owner address is invalid"):
+		return "err:basic"
+	case strings.Contains(m, "scope not found with id"):
+		return "err:notfound"
+	case strings.Contains(m, "party already exists with address"):
+		return "err:owner_exists"
+	case strings.Contains(m, "address does not exist in scope owners"):
+		return "err:owner_absent"
+	case strings.Contains(m, "invalid scope owners: at least one party is required"):
+		return "err:no_owners"
+	case strings.Contains(m, "address already exists for data access"):
+		return "err:da_exists"
+	case strings.Contains(m, "address does not exist in scope data access"):
+		return "err:da_absent"
 	case strings.Contains(m, "missing required signature"):
 		return "err:missing_sig " + e.partyList(signersAfter(m, "missing required signature"), true)
 	case strings.Contains(m, "missing signers for roles required by spec: "):
@@ -414,6 +439,28 @@ func (e *signersEnv) details(ds []types.TestablePartyDetails) string {
 		out = append(out, fmt.Sprintf("%s:%d:%s:%s:%s:%s", e.sym(addr), int(d.Role), o, ss, c, u))
 	}
 	return JoinOr(out, "|")
+}
+
+// showParties renders a stored party list in the op-line syntax.
+func (e *signersEnv) showParties(ps []types.Party) string {
+	out := make([]string, len(ps))
+	for i, p := range ps {
+		o := "r"
+		if p.Optional {
+			o = "o"
+		}
+		out[i] = fmt.Sprintf("%s:%d:%s", e.sym(p.Address), int(p.Role), o)
+	}
+	return JoinOr(out, "|")
+}
+
+// showScope renders a stored scope in the op-line syntax (rollup/number of data access entries/owners).
+func (e *signersEnv) showScope(sc types.Scope) string {
+	r := "0"
+	if sc.RequirePartyRollup {
+		r = "1"
+	}
+	return fmt.Sprintf("%s/%d/%s", r, len(sc.DataAccess), e.showParties(sc.Owners))
 }
 
 // ---- executing one op on the real keeper ---------------------------------------------
@@ -486,7 +533,24 @@ func (e *signersEnv) exec(line string) (res string) {
 	}
 	k := e.app.MetadataKeeper
 	scopeID, sessID, oldSessID, scopeSpecID, cSpecID, recSpecID, recordID := e.ids()
-	_ = scopeID
+	// via=msg: the same configuration, but END TO END through the real message server on the
+	// stored state; after an accepted message the stored entry is read back
+	via := op.kv["via"] == "msg"
+	if v, ok := op.kv["via"]; ok && v != "msg" {
+		return "bad-op"
+	}
+	ms := metadatakeeper.NewMsgServerImpl(k)
+	storedScope := func(err error) string {
+		c := e.class(err)
+		if err != nil {
+			return c
+		}
+		sc, found := k.GetScope(ctx, scopeID)
+		if !found {
+			return c + " stored=none"
+		}
+		return c + " stored=" + e.showScope(sc)
+	}
 
 	roleStr := op.kv["roles"]
 	var roles []types.PartyType
@@ -561,6 +625,10 @@ func (e *signersEnv) exec(line string) (res string) {
 			prop.SpecificationId = types.ScopeSpecMetadataAddress(e.scopeSpec2UUID)
 			k.SetScopeSpecification(ctx, types.ScopeSpecification{SpecificationId: prop.SpecificationId, PartiesInvolved: newRoles})
 		}
+		if via {
+			_, merr := ms.WriteScope(ctx, &types.MsgWriteScopeRequest{Scope: prop, Signers: signers})
+			return storedScope(merr)
+		}
 		_, verr := k.ValidateWriteScope(ctx, &types.MsgWriteScopeRequest{Scope: prop, Signers: signers})
 		return e.class(verr)
 	case "dscope":
@@ -574,6 +642,10 @@ func (e *signersEnv) exec(line string) (res string) {
 		if err = k.SetScope(ctx, e.mkScope(scope)); err != nil {
 			return "bad-op"
 		}
+		if via {
+			_, merr := ms.DeleteScope(ctx, &types.MsgDeleteScopeRequest{ScopeId: scopeID, Signers: signers})
+			return storedScope(merr)
+		}
 		_, verr := k.ValidateDeleteScope(ctx, &types.MsgDeleteScopeRequest{ScopeId: scopeID, Signers: signers})
 		return e.class(verr)
 	case "upd":
@@ -583,6 +655,23 @@ func (e *signersEnv) exec(line string) (res string) {
 		}
 		k.SetScopeSpecification(ctx, types.ScopeSpecification{SpecificationId: scopeSpecID, PartiesInvolved: roles})
 		ex := e.mkScope(scope)
+		if via {
+			if err = k.SetScope(ctx, ex); err != nil {
+				return "bad-op"
+			}
+			switch op.kv["mt"] {
+			case "AddScopeDataAccess":
+				_, merr := ms.AddScopeDataAccess(ctx, &types.MsgAddScopeDataAccessRequest{ScopeId: scopeID, DataAccess: []string{e.bech["N"]}, Signers: signers})
+				return storedScope(merr)
+			case "DeleteScopeDataAccess":
+				if len(ex.DataAccess) == 0 {
+					return "bad-op"
+				}
+				_, merr := ms.DeleteScopeDataAccess(ctx, &types.MsgDeleteScopeDataAccessRequest{ScopeId: scopeID, DataAccess: ex.DataAccess[:1], Signers: signers})
+				return storedScope(merr)
+			}
+			return "bad-op"
+		}
 		switch op.kv["mt"] {
 		case "AddScopeDataAccess":
 			return e.class(k.ValidateAddScopeDataAccess(ctx, ex, &types.MsgAddScopeDataAccessRequest{ScopeId: scopeID, DataAccess: []string{e.bech["N"]}, Signers: signers}))
@@ -613,6 +702,35 @@ func (e *signersEnv) exec(line string) (res string) {
 			return "bad-op"
 		}
 		return e.class(k.ValidateUpdateScopeOwners(ctx, ex, prop, msg))
+	case "mowners":
+		// the real msgServer.AddScopeOwner / DeleteScopeOwner on a STORED scope (or none)
+		scope, err1 := e.scope(op.kv["scope"])
+		if err1 != nil {
+			return "bad-op"
+		}
+		k.SetScopeSpecification(ctx, types.ScopeSpecification{SpecificationId: scopeSpecID, PartiesInvolved: roles})
+		if scope != nil {
+			if err = k.SetScope(ctx, e.mkScope(scope)); err != nil {
+				return "bad-op"
+			}
+		}
+		switch op.kv["mt"] {
+		case "AddScopeOwner":
+			add, err2 := e.parties(op.kv["add"])
+			if err2 != nil {
+				return "bad-op"
+			}
+			_, merr := ms.AddScopeOwner(ctx, &types.MsgAddScopeOwnerRequest{ScopeId: scopeID, Owners: add, Signers: signers})
+			return storedScope(merr)
+		case "DeleteScopeOwner":
+			remove, err2 := e.addrs(op.kv["remove"])
+			if err2 != nil {
+				return "bad-op"
+			}
+			_, merr := ms.DeleteScopeOwner(ctx, &types.MsgDeleteScopeOwnerRequest{ScopeId: scopeID, Owners: remove, Signers: signers})
+			return storedScope(merr)
+		}
+		return "bad-op"
 	case "wsession":
 		scope, err1 := e.scope(op.kv["scope"])
 		proposed, err2 := e.parties(op.kv["proposed"])
@@ -634,6 +752,18 @@ func (e *signersEnv) exec(line string) (res string) {
 			k.SetSession(ctx, *existing)
 		}
 		msg := &types.MsgWriteSessionRequest{Session: types.Session{SessionId: sessID, SpecificationId: cSpecID, Parties: proposed, Name: "sess"}, Signers: signers}
+		if via {
+			_, merr := ms.WriteSession(ctx, msg)
+			c := e.class(merr)
+			if merr != nil {
+				return c
+			}
+			st, found := k.GetSession(ctx, sessID)
+			if !found {
+				return c + " stored=none"
+			}
+			return c + " stored=" + e.showParties(st.Parties)
+		}
 		return e.class(k.ValidateWriteSession(ctx, existing, msg))
 	case "wrecord":
 		scope, err1 := e.scope(op.kv["scope"])
@@ -675,6 +805,19 @@ func (e *signersEnv) exec(line string) (res string) {
 		if existing != nil {
 			k.SetRecord(ctx, *existing)
 		}
+		if via {
+			_, merr := ms.WriteRecord(ctx, &types.MsgWriteRecordRequest{Record: rec, Signers: signers})
+			c := e.class(merr)
+			if merr != nil {
+				return c
+			}
+			// read back: the record sits in the session the message named
+			st, found := k.GetRecord(ctx, recordID)
+			if !found || !st.SessionId.Equals(sessID) {
+				return c + " stored=elsewhere"
+			}
+			return c + " stored=sess"
+		}
 		return e.class(k.ValidateWriteRecord(ctx, existing, &types.MsgWriteRecordRequest{Record: rec, Signers: signers}))
 	case "drecord":
 		scope, err1 := e.scope(op.kv["scope"])
@@ -692,6 +835,17 @@ func (e *signersEnv) exec(line string) (res string) {
 		}
 		k.SetRecord(ctx, types.Record{Name: "rec", SessionId: sessID, SpecificationId: recSpecID,
 			Process: types.Process{ProcessId: &types.Process_Hash{Hash: "h"}, Name: "p", Method: "m"}})
+		if via {
+			_, merr := ms.DeleteRecord(ctx, &types.MsgDeleteRecordRequest{RecordId: recordID, Signers: signers})
+			c := e.class(merr)
+			if merr != nil {
+				return c
+			}
+			if _, found := k.GetRecord(ctx, recordID); found {
+				return c + " stored=sess"
+			}
+			return c + " stored=none"
+		}
 		return e.class(k.ValidateDeleteRecord(ctx, recordID, &types.MsgDeleteRecordRequest{RecordId: recordID, Signers: signers}))
 	}
 	return "bad-op"
@@ -1075,7 +1229,147 @@ func (g *signersGGen) subset(ps []signersGParty, keepPct int) []signersGParty {
 	return out
 }
 
+// genCaller: one endpoint configuration; nearly half of them go through the real message
+// server (`via=msg`); the owner updates mostly do (`mowners`), since only the message server
+// computes the proposed owner list from the stored one.
 func (g *signersGGen) genCaller() string {
+	line := g.genCallerBase()
+	if strings.HasPrefix(line, "owners ") || strings.HasPrefix(line, "mowners ") {
+		return line
+	}
+	if g.r.Chance(45) {
+		line += " via=msg"
+	}
+	return line
+}
+
+// removal picks the owner addresses a DeleteScopeOwner message names: a single owner at the
+// first / a middle / the last position, or a random non-empty subset; rarely all of them or
+// an address that is no owner.
+func (g *signersGGen) removal(owners []signersGParty) []string {
+	addrs := signersGAddrsOf(owners)
+	var out []string
+	switch x := g.r.Intn(100); {
+	case x < 22:
+		out = []string{owners[0].addr}
+	case x < 40:
+		out = []string{owners[len(owners)-1].addr}
+	case x < 58:
+		out = []string{owners[len(owners)/2].addr}
+	case x < 88:
+		for _, a := range addrs {
+			if g.r.Bool() {
+				out = append(out, a)
+			}
+		}
+		if len(out) == 0 {
+			out = []string{Pick(g.r, addrs)}
+		}
+		if len(out) == len(addrs) && len(out) > 1 && g.r.Chance(80) {
+			out = out[:len(out)-1]
+		}
+		// the message's order need not be the owners' order
+		if len(out) > 1 && g.r.Bool() {
+			out[0], out[len(out)-1] = out[len(out)-1], out[0]
+		}
+	case x < 92:
+		out = addrs
+	case x < 97:
+		out = []string{g.addr(false)}
+		if g.r.Bool() {
+			out = append(out, Pick(g.r, addrs))
+		}
+	case x < 99:
+		out = []string{Pick(g.r, []string{"X", "E"})}
+	default:
+	}
+	return out
+}
+
+// genMOwners: msgServer.AddScopeOwner / DeleteScopeOwner on a stored scope with 1-5 owners.
+func (g *signersGGen) genMOwners(rollup bool, owners []signersGParty, other int) string {
+	// longer owner lists, so that a changed party can sit before, between and after others
+	for n := g.r.Intn(3); n > 0 && len(owners) < 5; n-- {
+		p := g.party(false, rollup)
+		if !signersGHas(owners, p) {
+			owners = append(owners, p)
+		}
+	}
+	for tries := 0; len(owners) < 2 && tries < 5 && g.r.Chance(85); tries++ {
+		if p := g.party(false, rollup); !signersGHas(owners, p) {
+			owners = append(owners, p)
+		}
+	}
+	mustOwners := owners
+	if !rollup {
+		mustOwners = signersGAllRequired(owners)
+	}
+	sc := signersGScope(rollup, other, owners)
+	if g.r.Chance(3) {
+		sc = "none"
+	}
+	var body string
+	var after, signing []signersGParty
+	if g.r.Chance(40) {
+		g.mt = "AddScopeOwner"
+		n := 1 + g.r.Intn(2)
+		var add []signersGParty
+		for tries := 0; len(add) < n && tries < 20; tries++ {
+			p := g.party(g.r.Chance(4), rollup || g.r.Chance(6))
+			dup := signersGHas(owners, p) || signersGHas(add, p)
+			if dup && !g.r.Chance(12) {
+				continue
+			}
+			add = append(add, p)
+		}
+		if g.r.Chance(2) {
+			add = nil
+		}
+		after = append(append([]signersGParty{}, owners...), add...)
+		signing = mustOwners
+		body = "add=" + signersGParties(add)
+	} else {
+		g.mt = "DeleteScopeOwner"
+		remove := g.removal(owners)
+		for _, p := range owners {
+			if !signersGContains(remove, p.addr) {
+				after = append(after, p)
+			}
+		}
+		signing = mustOwners
+		if g.r.Chance(40) {
+			// the owners that stay sign, the ones being removed do not
+			signing = nil
+			for _, p := range mustOwners {
+				if !signersGContains(remove, p.addr) {
+					signing = append(signing, p)
+				}
+			}
+		}
+		body = "remove=" + JoinOr(remove, "|")
+	}
+	var roles []int
+	if g.r.Chance(75) {
+		roles = g.roles(after, 2)
+	} else {
+		roles = g.roles(owners, 2)
+	}
+	avail := owners
+	if !rollup {
+		avail = nil
+	}
+	if len(signing) != len(mustOwners) && rollup {
+		// roles are then filled by the owners that stay (when they can)
+		avail = after
+	}
+	g.signersFor(signing, avail, roles, signersGAddrsOf(owners, after))
+	if len(g.signers) == 0 && g.r.Chance(85) {
+		g.signers = append(g.signers, Pick(g.r, signersGAddrsOf(owners)))
+	}
+	return fmt.Sprintf("mowners mt=%s scope=%s %s roles=%s", g.mt, sc, body, signersGRoles(roles)) + g.tail()
+}
+
+func (g *signersGGen) genCallerBase() string {
 	rollup := g.r.Chance(60)
 	owners := g.owners(rollup)
 	other := g.r.Intn(3)
@@ -1190,7 +1484,10 @@ func (g *signersGGen) genCaller() string {
 		}
 		g.signersFor(mustOwners, avail, roles, signersGAddrsOf(owners))
 		return fmt.Sprintf("upd mt=%s scope=%s roles=%s", g.mt, signersGScope(rollup, other, owners), signersGRoles(roles)) + g.tail()
-	case x < 42: // owners
+	case x < 46: // owners
+		if g.r.Chance(65) {
+			return g.genMOwners(rollup, owners, other)
+		}
 		g.mt = Pick(g.r, []string{"AddScopeOwner", "DeleteScopeOwner"})
 		proposed := g.parties(1+g.r.Intn(3), false, rollup || g.r.Chance(6), true)
 		if g.r.Chance(60) {
@@ -1207,7 +1504,7 @@ func (g *signersGGen) genCaller() string {
 		}
 		g.signersFor(mustOwners, avail, roles, signersGAddrsOf(owners, proposed))
 		return fmt.Sprintf("owners mt=%s scope=%s proposed=%s roles=%s", g.mt, signersGScope(rollup, other, owners), signersGParties(proposed), signersGRoles(roles)) + g.tail()
-	case x < 64: // wsession
+	case x < 66: // wsession
 		g.mt = "WriteSession"
 		var proposed []signersGParty
 		if rollup {
@@ -1519,6 +1816,54 @@ func (e *signersEnv) run(line string, out *Out) {
 		}
 		if strings.Contains(line, "!") {
 			out.Count("grants:expired")
+		}
+	}
+	switch {
+	case kind == "mowners" || strings.HasSuffix(line, " via=msg"):
+		out.Count("path:message-server")
+		out.Count("msgserver:" + kind + ":" + signersFirst(res))
+	case kind != "wp" && kind != "wo":
+		out.Count("path:validate-function")
+	}
+	if kind == "mowners" && strings.Contains(line, "mt=DeleteScopeOwner") {
+		// where the removed owners sit in the stored owner list
+		if op, err := signersParse(line); err == nil && op.kv["scope"] != "none" {
+			f := strings.Split(op.kv["scope"], "/")
+			owners := signersList(f[len(f)-1])
+			rm := signersList(op.kv["remove"])
+			first, last, mid, stay := false, false, false, 0
+			for i, o := range owners {
+				if signersGContains(rm, strings.SplitN(o, ":", 2)[0]) {
+					switch {
+					case i == 0:
+						first = true
+					case i == len(owners)-1:
+						last = true
+					default:
+						mid = true
+					}
+				} else {
+					stay++
+				}
+			}
+			if first && stay > 0 {
+				out.Count("remove:first-with-others-after")
+			}
+			if mid {
+				out.Count("remove:middle")
+			}
+			if last && stay > 0 {
+				out.Count("remove:last-with-others-before")
+			}
+			uncovered := false
+			for _, a := range rm {
+				if !signersGContains(signersList(op.kv["signers"]), a) && !strings.Contains(op.kv["grants"], a+">") {
+					uncovered = true
+				}
+			}
+			if uncovered {
+				out.Count("remove:removed-owner-not-covered")
+			}
 		}
 	}
 	if strings.Contains(line, "/1/") || kind == "wp" {
